@@ -657,7 +657,8 @@ class Recfile(object):
         #    # single fread will be done
         #    return None
         if tstop < tstart:
-            raise ValueError("start is greater than stop in slice")
+            # an empty selection, as for python slices
+            tstop = tstart
         return numpy.arange(tstart, tstop, step, dtype="i8")
 
     def _fix_range(self, num, isslice=True):
@@ -666,9 +667,12 @@ class Recfile(object):
         """
 
         if isslice:
-            # include the end
+            # python slice semantics: negative bounds count from the end,
+            # out-of-range bounds are clamped
             if num < 0:
-                num = self.nrows + (1 + num)
+                num = self.nrows + num
+                if num < 0:
+                    num = 0
             elif num > self.nrows:
                 num = self.nrows
         else:
